@@ -50,6 +50,18 @@ def compute_val_score(clf, X, y, batch_size, gemini_objective):
 
 def _path(clf, X, y=None, alpha_multiplier=1.05, min_features=2, keep_threshold=0.9,
           early_stopping_factor=0.99, max_patience=10):
+    # alpha is a hyper-parameter of the model: whatever happens during the path (normal end or
+    # exception), it must not keep the value 0 of the initial fit nor the last value of the path
+    initial_alpha = clf.alpha
+    try:
+        return _run_path(clf, X, y, alpha_multiplier, min_features, keep_threshold, early_stopping_factor,
+                         max_patience)
+    finally:
+        clf.alpha = initial_alpha
+
+
+def _run_path(clf, X, y=None, alpha_multiplier=1.05, min_features=2, keep_threshold=0.9,
+              early_stopping_factor=0.99, max_patience=10):
     if alpha_multiplier <= 1:
         warnings.warn(f"The alpha multiplier is lower or equal to 1. This will not increase alpha during the path. "
                       f"Setting it again to default parameters: 1.05")
@@ -67,7 +79,7 @@ def _path(clf, X, y=None, alpha_multiplier=1.05, min_features=2, keep_threshold=
                       f"no path will be performed. The method is equivalent to `fit`.")
 
     # Start by fitting the model using all features and without regularisation
-    initial_alpha = alpha = clf.alpha
+    alpha = clf.alpha
     clf.set_params(alpha=0)
 
     if clf.verbose:
@@ -164,8 +176,5 @@ def _path(clf, X, y=None, alpha_multiplier=1.05, min_features=2, keep_threshold=
             if clf.verbose:
                 print(f"This is definitely the best score so far within threshold: {iteration_gemini_score}, "
                       f"{best_gemini_score}")
-
-    # The path is over: alpha is a hyper-parameter of the model and must not keep the last value of the path
-    clf.alpha = initial_alpha
 
     return best_weights, geminis, group_lasso_penalties, alphas, n_features
